@@ -21,6 +21,30 @@ TYPES = [
     ("dd", "DefaultDict[str, List[int]]"), ("seq", "Sequence[int]"), ("map", "Mapping[str, int]"), ("lb", "List[bytes]"),
     ("ba", "bytearray"), ("u_date_li", "Union[datetime.date, List[int]]"), ("u_date_dsi", "Union[datetime.date, Dict[str, int]]"),
 ]
+STYPE_PRELUDE = COMMON_PRELUDE + '''
+@dataclass
+class Bag(SerializableType, use_annotations=True):
+    items: List[int]
+
+    def _serialize(self) -> List[int]:
+        return self.items  # hands out its own list: the annotation-driven rendering is what copies it
+
+    @classmethod
+    def _deserialize(cls, value: List[int]) -> "Bag":
+        return cls(value)
+
+@dataclass
+class Shelf(SerializableType, use_annotations=True):
+    rows: List[List[int]]
+
+    def _serialize(self) -> Dict[str, List[List[int]]]:
+        return {"rows": self.rows}  # a new dict around the object's own lists
+
+    @classmethod
+    def _deserialize(cls, value: Dict[str, List[List[int]]]) -> "Shelf":
+        return cls(value["rows"])
+'''
+STYPES = [("bag", "Bag"), ("shelf", "Shelf"), ("lbag", "List[Bag]")]
 MPFIELD = ("li", "dsl", "lli", "u_li_d", "u_date_li", "u_date_dsi", "oli", "lany")
 NOCOPY = {"none": "()", "list": "(list,)", "dict": "(dict,)", "ld": "(list, dict)", "set": "(set,)",
           "all": "(list, dict, set, frozenset, tuple, collections.deque, collections.OrderedDict)"}
@@ -38,6 +62,14 @@ def harnesses(tier, seed):
                 s = Schema("%s_%s" % (tn, nn), texpr, COMMON_PRELUDE)
                 try:
                     hs.append(gen.value_harness("C18", "c18", s, variant, "Bounds(maxlen=2)", setup_kwargs="no_copy=%s" % nsrc))
+                except Exception as e:
+                    skipped.append((s.name, variant, repr(e)[:200]))
+    for tn, texpr in STYPES:
+        for nn in ("none", "ld"):
+            for variant in ("codec", "field"):
+                s = Schema("%s_%s" % (tn, nn), texpr, STYPE_PRELUDE)
+                try:
+                    hs.append(gen.value_harness("C18", "c18", s, variant, "Bounds(maxlen=2)", setup_kwargs="no_copy=%s" % NOCOPY[nn]))
                 except Exception as e:
                     skipped.append((s.name, variant, repr(e)[:200]))
     for tn, texpr in TYPES:
